@@ -24,6 +24,7 @@
 #include <sys/wait.h>
 #include <unistd.h>
 
+#include "functionhandler.h"
 #include "logger.h"
 #include "sinks/filesink.h"
 #include "utils.h"
@@ -45,8 +46,9 @@ static void emitMessages(const QJsonArray &msgs)
     }
 }
 
-static void fA(QtMsgType, const QMessageLogContext &, const QString &) { }
-static void fB(QtMsgType, const QMessageLogContext &, const QString &) { }
+static const char *g_rcv = "nobody";        // who saw the last message emitted through Qt's macros
+static void fA(QtMsgType, const QMessageLogContext &, const QString &) { g_rcv = "f1"; }
+static void fB(QtMsgType, const QMessageLogContext &, const QString &) { g_rcv = "f2"; }
 
 static const char *nameOf(QtMessageHandler h, QtMessageHandler def)
 {
@@ -85,15 +87,21 @@ int main(int argc, char **argv)
             qInstallMessageHandler(nullptr);
             Logger::restorePreviousMessageHandler();      // forget what an earlier history saved
             qInstallMessageHandler(nullptr);
-            Logger a, b;                                   // "however often install was called": also by other loggers
+            // "however often install was called": also by other loggers; each logger tells when a message reaches it
+            Logger *a = new Logger, *b = new Logger;
+            a->append(FunctionHandlerPtr::create([](LogMessage &) { g_rcv = "a"; return true; }));
+            b->append(FunctionHandlerPtr::create([](LogMessage &) { g_rcv = "b"; return true; }));
             QJsonObject r;
             r["e"] = "Reset";
             r["id"] = h["id"];
             std::cout << QJsonDocument(r).toJson(QJsonDocument::Compact).constData() << "\n";
             for (const auto &v : h["ops"].toArray()) {
                 const QString op = v.toString();
-                if (op == "install") a.installMessageHandler();
-                else if (op == "install2") b.installMessageHandler();
+                if (op == "install") a->installMessageHandler();
+                else if (op == "install2") b->installMessageHandler();
+                else if (op == "kill") { delete a; a = nullptr; }
+                else if (op == "kill2") { delete b; b = nullptr; }
+                else if (op == "log") { g_rcv = "nobody"; QMessageLogger("h.cpp", 1, "void h()", "hist").info("probe"); }
                 else if (op == "restore") Logger::restorePreviousMessageHandler();
                 else if (op == "f1") qInstallMessageHandler(fA);
                 else if (op == "f2") qInstallMessageHandler(fB);
@@ -101,9 +109,12 @@ int main(int argc, char **argv)
                 o["e"] = "Op";
                 o["op"] = op;
                 o["cur"] = nameOf(peek(), def);
+                if (op == "log") o["rcv"] = g_rcv;
                 std::cout << QJsonDocument(o).toJson(QJsonDocument::Compact).constData() << "\n";
             }
             qInstallMessageHandler(nullptr);
+            delete a;
+            delete b;
         }
         std::cout.flush();
         return 0;
